@@ -699,9 +699,10 @@ def expand_chunk(args):
     return out
 
 
-def explore(pool, cfg, U, depth, nworkers=14):
+def explore(pool, cfg, U, depth, nworkers=14, model_every=1):
     """Breadth-first over all operation sequences of alphabet(U) up to `depth` on the implementation; a
-    state already seen (up to renaming of Peer objects) is not expanded again.
+    state already seen (up to renaming of Peer objects) is not expanded again.  The oracle runs on every
+    edge; of the last level only every `model_every`-th expanded state is also handed to the Coq model.
     -> cases [(path, [op], [hash])], violations [(key, what, ops)], stats"""
     seen = {digest(Impl(*cfg))}
     frontier = [([], 0)]
@@ -713,9 +714,12 @@ def explore(pool, cfg, U, depth, nworkers=14):
         chunks = [frontier[i::nchunks] for i in range(nchunks)]
         nxt = []
         stats["expanded"].append(len(frontier))
+        keep = {repr(p) for i, (p, _) in enumerate(frontier) if not last or i % model_every == 0}
         for res in pool.imap_unordered(expand_chunk, [(cfg, U, ch, last) for ch in chunks]):
             for path, h, fan, vs in res:
-                cases.append((path, [f[0] for f in fan], [f[1] for f in fan]))
+                if repr(path) in keep:
+                    cases.append((path, [f[0] for f in fan], [f[1] for f in fan]))
+                    stats["model_edges"] = stats.get("model_edges", 0) + len(fan)
                 stats["edges"] += len(fan)
                 for key, what, ops in vs:
                     if key not in viols or len(ops) < len(viols[key][2]):
@@ -956,18 +960,18 @@ def run(ctx):
     cfg_tight = ((1, 1, 1), [U[1][1]], [3])            # minimal caps, blacklisted address and mid, null address
     if ctx.quick:
         d_full, d_small = 3, 4
-        plans = [(cfg_default, U, 3), (cfg_tight, Unull, 3),
-                 (cfg_default, small(U), 4), (((1, 1, 1), [], []), small(U), 4)]
+        plans = [(cfg_default, U, 3, 1), (cfg_tight, Unull, 3, 1),
+                 (cfg_default, small(U), 4, 1), (((1, 1, 1), [], []), small(U), 4, 1)]
     else:
         d_full, d_small = 4, 6
-        plans = [(cfg_default, U, 4), (cfg_tight, Unull, 3),
-                 (((2, 2, 1), [U[1][2]], []), U, 3), (((500, 500, 500), [U[1][0]], [2]), U, 3),
-                 (cfg_default, small(U), 6), (((1, 1, 1), [], []), small(U), 5)]
+        plans = [(cfg_default, U, 4, 5), (cfg_tight, Unull, 3, 1),
+                 (((2, 2, 1), [U[1][2]], []), U, 3, 1), (((500, 500, 500), [U[1][0]], [2]), U, 3, 1),
+                 (cfg_default, small(U), 6, 4), (((1, 1, 1), [], []), small(U), 5, 1)]
     all_cases = []     # (cfg, path, fan ops, fan hashes)
     ctx.extra["exploration"] = []
     with multiprocessing.Pool(14) as pool:
-        for cfg, u, d in plans:
-            cases, viols, stats = explore(pool, cfg, u, d)
+        for cfg, u, d, every in plans:
+            cases, viols, stats = explore(pool, cfg, u, d, model_every=every)
             ctx.extra["exploration"].append({"cfg": cfg_json(cfg), **stats})
             for key, what, ops in viols:
                 report(key, what, cfg, ops)
@@ -978,7 +982,7 @@ def run(ctx):
         timing["exploration_impl"] = round(time.time() - t0, 1)
         t0 = time.time()
         # ---- stage C (b): random sequences
-        nrand = 1500 if ctx.quick else 8000
+        nrand = 1500 if ctx.quick else 6000
         maxlen = 200
         rr = ctx.rng("lengths")
         jobs = [(ctx.seed, i, rr.choice([5, 10, 20, 40, 80, maxlen] if ctx.quick else [10, 40, 100, maxlen]))
@@ -1014,7 +1018,8 @@ def run(ctx):
         "over %d operations (2 peers x 2 addresses x 1 service) to depth %d on the implementation, states merged up to "
         "renaming of Peer objects, with default and minimal cache caps, blacklists and the null address; queries checked "
         "against the membership read directly at every edge, full query sweep on private copies + re-add after every removal "
-        "and at the last level; %d random sequences of length <= %d (3-6 peers, caps 0..500, blacklists, malformed "
+        "and at the last level (thorough tier: of the deepest level of the two largest explorations every 5th / 4th state "
+        "goes to the model, all go through the oracle); %d random sequences of length <= %d (3-6 peers, caps 0..500, blacklists, malformed "
         "snapshots); every edge / sequence compared with the Coq model by a chained hash of return value and full state "
         "after every operation; distinct = distinct states (exploration) + sequences ending in a non-empty graph (random)"
         % (len(alphabet(U)), d_full, len(alphabet(small(U))), d_small, nrand, maxlen))
